@@ -89,7 +89,30 @@ impl<'a, 'b> Builder<'a, 'b> {
     }
 
     fn source(&mut self) {
-        match self.t.below(8) {
+        match self.t.below(9) {
+            8 => {
+                // two ranges with the same step where the second starts at the first one's end bound
+                // (aligned to the stride or not), chained directly
+                let a = self.small();
+                let step = *self.t.pick(&[1i128, 2, 3, -2, -3, 5, -1]);
+                let (l1, l2) = (self.t.range(0, 9) as i128, self.t.range(0, 9) as i128);
+                let dir = if step > 0 { 1 } else { -1 };
+                let b = a + dir * l1;
+                let c = b + dir * l2;
+                let walk = |from: i128, to: i128| -> Vec<i128> {
+                    let mut v = vec![];
+                    let mut x = from;
+                    while (step > 0 && x < to) || (step < 0 && x > to) {
+                        v.push(x);
+                        x += step;
+                    }
+                    v
+                };
+                let mut v = walk(a, b);
+                v.extend(walk(b, c));
+                let src = format!("range({}, {}, {}) + range({}, {}, {})", lit(a), lit(b), lit(step), lit(b), lit(c), lit(step));
+                self.bind(src, Ok(MSeq::Fin(v)), "chain", "adjacent_ranges");
+            }
             0 | 1 => {
                 let n = self.t.below(7);
                 let v: Vec<i128> = (0..n).map(|_| self.small()).collect();
